@@ -272,7 +272,7 @@ def run_shard(ctx):
     DT, TM = DateTime(), Time()
     rng = ctx.rng
     thorough = ctx.tier == "thorough"
-    k_inst = 20 if thorough else 2
+    k_inst = 60 if thorough else 2
     all_offsets = list(range(-12 * 60, 14 * 60 + 1))
     mine = [o for i, o in enumerate(all_offsets) if i % ctx.nshards == ctx.shard]
     ctx.count("offsets_read", len(mine))
